@@ -50,7 +50,7 @@
 #define MAXFD 4096
 #define MAXRULES 64
 #define MAXDIRS 256
-#define RELMAX 1024
+#define RELMAX 4096
 
 /* ------------------------------------------------------------------ real symbols */
 static int (*real_open64)(const char *, int, ...);
